@@ -165,6 +165,10 @@ def _nonneg_expr(repo, fi, e):
         return v >= 0
     if isinstance(e, ast.Call) and call_name(e) in ("int.from_bytes", "len"):
         return True
+    if isinstance(e, ast.BinOp) and isinstance(e.op, ast.Mod):
+        m = repo.fold(fi.mod, e.right)
+        if isinstance(m, int) and not isinstance(m, bool) and m > 0:
+            return True       # x % m with m > 0 is in [0, m) for every integer x (Python's modulo takes the sign of the divisor)
     if isinstance(e, ast.BinOp) and isinstance(e.op, ast.Sub) and isinstance(e.left, ast.Constant) and isinstance(e.right, ast.BinOp) \
             and isinstance(e.right.op, ast.Mod) and isinstance(e.right.right, ast.Constant) and e.left.value >= e.right.right.value - 1 + 1:
         return True       # c - (x % c')  with c >= c'
